@@ -70,6 +70,10 @@ CLAIMED = {
             "Generated histories (1..30 steps) of Register(new / existing / unregistrable shape), NewClaims, CBOR/JSON decode repeated 32x, in-place mutation of one instance (setters, exported pointers and slices, returned components, container) and probes, with 0..8 extra profiles of three shapes (sharing eat-profile, sharing psa-profile, own JSON member). After every registration the full battery of lookups for 12 names must equal the model's expectation (so a failed registration changes nothing and a successful one changes only the new name); every instance must equal the first one obtained the same way, be a distinct object, and stay unchanged while other instances are mutated; repeated JSON dispatch must give one outcome.",
             "Hook: VerifCheckpointProfiles (build tag verif) only snapshots/restores the register map; the register itself is exercised through the public API.",
             "DESIGN.md §4 C16"),
+    "C17": ("rapid-generated concurrent programs (16..48 goroutines over shared claims-sets / Evidence / buffers) in a -race binary; oracle = race detector log + equality with a sequential run of the same scripts on a fresh pool",
+            "Generated schedules (sampled, not enumerated): each program is a pool of shared objects and per-goroutine scripts of 10..60 read-side operations (create, decode CBOR/JSON/COSE, validate, getters, encode, MarshalJSON, Verify on shared objects; Sign/ValidateAndSign on private Evidence with shared claims; setters and codec helpers on private objects) started behind a barrier with GOMAXPROCS=16. Any race-detector report, or any operation whose result differs from the sequential reference, is a violation. The race detector flags conflicting unsynchronised accesses whenever both execute, independent of timing luck, which makes sampling effective for the realistic regressions (package-level cache, lazy initialisation, in-place normalisation through a pointer receiver).",
+            "The Go scheduler owns the interleaving: a race needing a rare schedule can be missed, and a reported race may not reproduce from the saved program (the detector's report is saved as the replay then). Registration is not part of the mix (the register is only read).",
+            "DESIGN.md §4 C17"),
     "C18": ("rapid sequences of read-side calls with a reflect-based deep fingerprint before/after every call + repeat-equality; input-buffer scribbling and cross-instance mutation for aliasing",
             "Generated histories: subjects of seven kinds (literal, setters, decoded from CBOR/JSON, extension instance, decoded and freshly signed Evidence; valid or deviating) x 1..30 random read-side calls; after each call the deep fingerprint of everything reachable (exported fields, pointers, slices, component container) must be unchanged and an immediate repeat must return the identical result; decoding from a private buffer that is then overwritten (0x00/0xff/noise) must change no getter, encoding or Verify outcome, the decoder must not write to its input, and a second instance decoded from the same bytes must be unaffected by writes into the first instance's returned slices.",
             "The COSE message inside an Evidence is unexported: only its behaviour (Verify outcomes, MarshalJSON) is required to be stable; a change confined to it is recorded as a class, not a violation.",
